@@ -45,6 +45,15 @@ fn hook() -> Option<Hook> {
     }
 }
 
+/// `compare_exchange_weak` may fail spuriously (C11; LL/SC hardware does it under contention).
+/// When a hook is installed every other call fails although the value matched, so that code
+/// which treats a failed weak CAS as "another thread won" is exercised; a retry loop simply
+/// succeeds on its next attempt.
+static SPURIOUS: core::sync::atomic::AtomicUsize = core::sync::atomic::AtomicUsize::new(0);
+fn spurious() -> bool {
+    hook().is_some() && SPURIOUS.fetch_add(1, core::sync::atomic::Ordering::Relaxed) % 2 == 0
+}
+
 macro_rules! traced {
     ($loc:expr, $kind:expr, $isptr:expr, $ord:expr, $ordf:expr, $body:expr) => {{
         let caller = core::panic::Location::caller();
@@ -139,6 +148,31 @@ impl AtomicUsize {
         }
     }
     #[track_caller]
+    pub fn compare_exchange_weak(
+        &self,
+        current: usize,
+        new: usize,
+        success: Ordering,
+        failure: Ordering,
+    ) -> Result<usize, usize> {
+        let (old, ok) = traced!(self as *const _ as usize, 3, false, success, failure, {
+            if spurious() {
+                let v = self.0.load(failure);
+                (v, v, false)
+            } else {
+                match self.0.compare_exchange(current, new, success, failure) {
+                    Ok(v) => (v, new, true),
+                    Err(v) => (v, v, false),
+                }
+            }
+        });
+        if ok {
+            Ok(old)
+        } else {
+            Err(old)
+        }
+    }
+    #[track_caller]
     pub fn get_mut(&mut self) -> &mut usize {
         let loc = self as *const _ as usize;
         let cur = *self.0.get_mut();
@@ -182,6 +216,31 @@ impl<T> AtomicPtr<T> {
             match self.0.compare_exchange(current, new, success, failure) {
                 Ok(v) => (v as usize, new as usize, true),
                 Err(v) => (v as usize, v as usize, false),
+            }
+        });
+        if ok {
+            Ok(old as *mut T)
+        } else {
+            Err(old as *mut T)
+        }
+    }
+    #[track_caller]
+    pub fn compare_exchange_weak(
+        &self,
+        current: *mut T,
+        new: *mut T,
+        success: Ordering,
+        failure: Ordering,
+    ) -> Result<*mut T, *mut T> {
+        let (old, ok) = traced!(self as *const _ as usize, 3, true, success, failure, {
+            if spurious() {
+                let v = self.0.load(failure);
+                (v as usize, v as usize, false)
+            } else {
+                match self.0.compare_exchange(current, new, success, failure) {
+                    Ok(v) => (v as usize, new as usize, true),
+                    Err(v) => (v as usize, v as usize, false),
+                }
             }
         });
         if ok {
